@@ -24,9 +24,9 @@ CHECKS = {
    text="For all three storages: every announce time, several maximum ages, stale worker samples, cleans at every clock value (so deadline-1, deadline, deadline+1 all occur), inline and heap representations, seeders and leechers, WS offers; to a fixpoint except the 5-key HTTP run (depth-bounded in quick). Reference tracker oracle + probes in every state; ValidUntil::valid on a full small grid and u32 extremes.",
    note="Mock clock is monotone; sampling cadence of the socket workers is read from the code, not explored."),
  "C20": dict(level="model_checking", engine="seqmc", ref="§3 C20",
-   technique="explicit-state BFS over event histories on the real UDP storage with statistics, per-client tallies and scrape export enabled; reference-model oracle after every cleaning pass",
-   text="BFS to a fixpoint over announce / stop / re-announce-with-new-peer-id / expiry histories (3 keys x 3 peer ids; 2 torrents x 2 families; heap maps) with the statistics worker's own fold as tally; after every clean: torrent and peer totals, per-client tallies and the parsed export file equal the reference tracker.",
-   note="Tally fold is a model of run_statistics_worker's loop; crash points of the export are a separate sub-check (see DESIGN); access list off."),
+   technique="explicit-state BFS over event histories on the real UDP storage with statistics, tallies and scrape export enabled (reference-model oracle after every cleaning pass) + exhaustive crash-point enumeration of the export via syscall interposition",
+   text="BFS to a fixpoint over announce / stop / re-announce-with-new-peer-id / expiry histories (3 keys x 3 peer ids; 2 torrents x 2 families; heap maps) with the statistics worker's own fold as tally; after every clean: torrent and peer totals, per-client tallies and the parsed export file equal the reference tracker. Crash points: the export runs in a child executable that interposes open / write / rename / unlink; for exports of 0, 1, 3, 300 and 3000 (thorough 20000) torrents with no, a small and a large previous export, the process is killed immediately before every file-system-mutating call and after the last one (111 crash points quick); the configured path must hold the complete previous or the complete new export; a concurrent reader polling the path during 40 exports sees only those two.",
+   note="Tally fold is a model of run_statistics_worker's loop; process-kill crash model (no power loss: the export path has no fsync); access list off."),
  "C05": dict(level="exploration", engine="enum", ref="§3 C05",
    technique="exhaustive enumeration of a boundary grid and of all 1-/2-bit alterations through the real ConnectionValidator, integer oracle",
    text="Every cell of max_connection_age x issue time x check offset x issuing IP x checking IP (176k cells incl. 0, 60/61 s, 2^31 and u32::MAX boundaries, IPv4/IPv6 addresses sharing octets) is run through the real validator (clock set via hook H2) and compared with the rule evaluated in unbounded integers; at 80 accepted points all 64 single-bit and 2016 double-bit alterations, foreign-key ids, other-address ids and structured forgeries must be rejected.",
@@ -79,6 +79,10 @@ CHECKS = {
    technique="exhaustive enumeration of list-file contents x reload sequences; explicit-state BFS over announce / reload / clean histories on a live socket worker and on the storages; SIGUSR1 reload sequences against all three run()",
    text="Layer 1: 57 list-file variants (subsets of {A,B} in lower / upper / mixed hex, blank lines, surrounding blanks and tabs, CRLF, missing final newline; missing file, directory, a bad line of five kinds at first / middle / last position, invalid UTF-8) in all reload sequences of length <= 2 (thorough 3) x 3 modes through update_access_list: decisions follow the last good list, a failed reload returns Err and changes nothing. Layer 2: BFS (dedup on list in force x stored torrents) over announce-datagram / reload / clean histories on a live UDP socket worker (mio and io_uring) and seqmc over the HTTP and WS storages with reload events. Layer 3: aquatic_udp/http/ws run() in child processes x modes: file rewritten, SIGUSR1, reload completion awaited via the H8 counter, announces of A/B/C, timer-driven clean, scrapes, over {}->{A}->{B}->malformed->{A,B}->missing.",
    note="Layer 3 waits 2.3 s per step for a timer-driven cleaning pass; HTTP/WS gates are exercised in layer 3 only."),
+ "C03": dict(level="exploration", engine="netmc", ref="§3 C03",
+   technique="exhaustive enumeration of address classes and reverse-proxy header layouts through the real functions, and of socket configurations x source addresses x in-request address fields against real trackers over loopback",
+   text="Direct: CanonicalSocketAddr::new / get_ipv6_mapped and the ws IpVersion over IPv4, IPv6, IPv4-mapped and 24 near-miss addresses x ports; 576 reverse-proxy header layouts (1-3 occurrences x 1-3 values x whitespace shapes x value kinds x unrelated headers) through the HTTP socket worker's parse_request. End to end: UDP (mio, io_uring) and HTTP started through run() for {v4 only, v6 only, v6 dual-stack, both}, WS for {v4, v6 only, dual-stack}; sources 127.0.0.1/.2/.3, 192.0.2.2, ::1, fd00::2, IPv4 hosts also through the dual-stack socket; X announces with every in-request ip value, every other source Y of the family must be told exactly (network source of X, announced port) and the other family must not see the peer; HTTP behind a proxy with the driver as proxy.",
+   note="Loopback / local addresses only; header-name case variants not tested."),
 }
 
 NOT_YET = {}
